@@ -147,6 +147,29 @@ class Ctx:
         shutil.rmtree(self.tmp, ignore_errors=True)
 
 
+def compile_failed(res: "Result", e: BaseException, wit: Any) -> None:
+    """A valid generated schema failed to compile in a property that does not judge acceptance: counted and skipped - unless
+    a runtime contract on the compiler fired (ContractBroken) or the failure is an internal exception, which every property
+    reports (a contract that is swallowed would turn a broken tree into an empty, inconclusive workload)."""
+    name = type(e).__name__
+    res.count("skipped_compile_error")
+    res.observe("compile_error_classes", f"{name}: {str(e)[:60]}")
+    if name == "ContractBroken":
+        res.violation("contract:" + str(e).split("(")[0], f"compiler contract broken while compiling a generated schema: {e}", wit)
+    elif name in ("TraceViolation",):
+        res.violation("monitor:" + name, str(e), wit)
+    else:
+        try:
+            import bitproto.errors as _E
+            internal = not isinstance(e, (_E.ParserError, _E.RendererError, OSError))
+        except Exception:
+            internal = False
+        if internal:
+            import traceback as _tb
+            res.violation(f"compile-internal:{name}", f"compiling a generated valid schema raised {name}: {str(e)[:200]}",
+                          {**(wit if isinstance(wit, dict) else {}), "traceback": "".join(_tb.format_exception(type(e), e, e.__traceback__))[-1500:]})
+
+
 def load_known(prop: str) -> Dict[str, Dict[str, Any]]:
     try:
         with open(KNOWN_FILE) as fh:
@@ -221,8 +244,12 @@ def main(prop: str, module: str, worker: Callable[[Ctx], None], *, level: str = 
         try:
             env.assert_repo_imports()
             worker(ctx)
-        except Exception:
-            ctx.res.inconclusive.append("worker crashed: " + traceback.format_exc()[-3000:])
+        except Exception as e:
+            if type(e).__name__ == "ContractBroken":
+                # a runtime contract on the real code fired outside any case handler: that is an observation, not a harness failure
+                ctx.res.violation("contract:" + str(e).split("(")[0], f"contract broken: {e}", {"traceback": traceback.format_exc()[-2000:]})
+            else:
+                ctx.res.inconclusive.append("worker crashed: " + traceback.format_exc()[-3000:])
         finally:
             ctx.cleanup()
         with open(a.out, "w") as fh:
